@@ -1,7 +1,7 @@
 (* C28 — proofs, part 3: the per-library initialization state. *)
 From Coq Require Import Arith List Bool Lia.
 Import ListNotations.
-From Cffi Require Import C28.Model C28.Proofs C28.Proofs2.
+From Cffi Require Import C28.Gen C28.Model C28.Proofs C28.Proofs2.
 
 Definition is_init (l : nat) (f : frame) : bool := initpc (snd f) && Nat.eqb (fst f) l.
 Definition ninit (l : nat) (st : list frame) : nat := length (filter (is_init l) st).
@@ -129,7 +129,7 @@ Lemma stepE_generic s t c l p rest :
   | _ => False
   end -> InvE (step s (t, c)).
 Proof.
-  intros A E Ht Hst P. unfold step. cbv beta iota zeta. rewrite Ht, Hst. cbn [negb].
+  intros A E Ht Hst P. ustep. cbv beta iota zeta. rewrite Ht, Hst. cbn [negb].
   pose proof (rest_special s t l p rest A Hst) as RS.
   destruct p; try contradiction; split_ifs; try exact E;
     (apply (E_frame s _ t E); simp_state;
@@ -444,11 +444,11 @@ Qed.
 Lemma stepE s tc : InvA s -> InvD s -> InvE s -> InvE (step s tc).
 Proof.
   intros A D E. destruct tc as [t c].
-  destruct (t <? nthr s) eqn:Ht; [|unfold step; rewrite Ht; exact E].
+  destruct (t <? nthr s) eqn:Ht; [|ustep; rewrite Ht; exact E].
   destruct (stacks s t) as [| [l p] rest] eqn:Hst.
-  { unfold step. rewrite Ht, Hst. cbn [negb]. destruct c; try exact E. apply stepE_idle; assumption. }
+  { ustep. rewrite Ht, Hst. cbn [negb]. destruct c; try exact E. apply stepE_idle; assumption. }
   destruct p; try (apply (stepE_generic s t c l _ rest A E Ht Hst); exact I);
-    unfold step; cbv beta iota zeta; rewrite Ht, Hst; cbn [negb].
+    ustep; cbv beta iota zeta; rewrite Ht, Hst; cbn [negb].
   - (* PCall *)
     destruct (switched (libs s l)) eqn:Sw.
     + unfold enter_py. rewrite (ist_allows_fast s t l E Sw).
